@@ -8,7 +8,8 @@ from pbt.engine import load_known_findings
 from pbt.worker import outcome
 
 INTS = ["0", "7", "007", "00", "0123", "1_000", "12345678901234567890123", "0x10", "0b1", "0o7", "1e3", "1E3", "1E", "1E0",
-        "1E-2", "1E+2", "2.5E3", "1.", ".5", "1.5", "1.5.2", "00.5", "1..2", "1.E3"]
+        "1E-2", "1E+2", "2.5E3", "1.", ".5", "1.5", "1.5.2", "00.5", "1..2", "1.E3", "2E03", "1E007", "1E00", "007E2", "007E02", "1.50E02",
+        "0E0", "00E00", "1E-03", "1_0E0_1", "12E3E4"]
 STRS = ['""', '"a"', '"a\\"b"', '"a\\\\"', '"\\n"', '"\\"', '"{"', '"}"', '"{}"', '"{{"', '"}}"', '"{{}}"', '"{x}"',
         '"{ x }"', '"{x}{x}"', '"{x + 1}"', '"{"q"}"', '"{x}\\\\"', '"a\nb"', '"a\n{x}\nb"', '"\'"', '"\'\'\'"',
         '"""doc"""', '"""d"c"""', '"""a\nb"""', '"""\\"""', '"é"', '"\\x"', '"\\{x\\}"', '"%s"', '"{x!r}"', '"{x:>3}"',
@@ -27,7 +28,8 @@ def literal_stress(draw):
     if kind == "int":
         lit = draw(st.sampled_from(INTS))
         ctx = draw(st.sampled_from(["def x := %s\n", "def x: Int := %s\n", "print(%s)\n", "def x := 1 + %s\n",
-                                    "def f(a: Int := %s) => print(a)\n", "def l := [%s, 2]\n", "for i in 0 .. %s do print(i)\n"]))
+                                    "def f(a: Int := %s) => print(a)\n", "def l := [%s, 2]\n", "for i in 0 .. %s do print(i)\n", "def s := \"{%s}\"\n",
+                                    "def x := -%s\n", "def x := 2 ^ %s\n", "def x := %s * %s\n".replace("%s * %s", "%s * 3")]))
         return {"gen": "lit-int", "src": ctx % lit}
     if kind == "str":
         lit = draw(st.sampled_from(STRS))
